@@ -29,8 +29,8 @@ def parse_state_type(code):
             continue
         name = line.split("::")[-1].split()[-1] if "::" in line else line.split()[-1]
         low = line.lower()
-        if name.startswith("dagrt_refcnt_"):
-            continue
+        if "pointer" in low and "dimension" not in low:
+            continue          # pointer to a scalar: the generator's reference counters, not a value of the method
         if "dimension" in low:
             cls = "pointer-array" if "pointer" in low else "array"
         elif low.startswith("logical"):
